@@ -6,10 +6,11 @@ HERE = os.path.dirname(os.path.dirname(os.path.abspath(__file__)))
 sys.path.insert(0, HERE)
 props = [json.loads(l) for l in open(os.path.join(HERE, "properties.jsonl"))]
 checks, na = [], []
+READY = set(open(os.path.join(HERE, "tools", "claimed.txt")).read().split())
 for p in props:
     pid = p["id"]
     path = os.path.join(HERE, "mc", "props", pid.lower() + ".py")
-    if not os.path.exists(path):
+    if not os.path.exists(path) or pid not in READY:
         na.append(dict(property_id=pid, reason="check not built yet (design: DESIGN.md section 4, %s); "
                        "the technique applies, the property is simply not claimed until its check exists" % pid))
         continue
